@@ -429,6 +429,10 @@ type c03Cat struct {
 	line func(rng *rand.Rand) string
 }
 
+// entries made of two bad records in a row: each of the two must be reported (the reader is called again after the
+// first error, as a caller skipping bad records does)
+var c03TwoErrors = map[string]bool{"fastq mismatching record followed by an empty-sequence record with a quality line": true}
+
 // entries that are an error only as the first line of a file
 var c03FirstOnly = map[string]bool{"fasta sequence line before any header": true}
 
@@ -537,6 +541,15 @@ var c03Catalogue = func() []c03Cat {
 			q = l - 1 - rng.Intn(minInt(2, l-1))
 		}
 		return "@r1 d\n" + strings.Repeat("a", l) + "\n+\n" + strings.Repeat("I", q)
+	}})
+	cat = append(cat, c03Cat{"fastq", "fastq mismatching record followed by an empty-sequence record with a quality line", func(rng *rand.Rand) string {
+		l := 2 + rng.Intn(20)
+		q := l + 1 + rng.Intn(3)
+		if rng.Intn(2) == 0 {
+			q = l - 1 - rng.Intn(minInt(2, l-1))
+		}
+		// the second record has no letters but l quality bytes (as many as the rejected record had letters)
+		return "@r1 d\n" + strings.Repeat("a", l) + "\n+\n" + strings.Repeat("I", q) + "\n@r2\n+\n" + strings.Repeat("I", l)
 	}})
 	cat = append(cat, c03Cat{"fastq", "fastq quality line longer than the sequence by stray high bytes", func(rng *rand.Rand) string {
 		// surplus bytes that are not white space: lone 0x85 / 0xA0 (white space only as the second byte of C2 85 / C2 A0),
@@ -661,6 +674,10 @@ func c03Case(r *obs.Run, i int) {
 		r.Crumb(fmt.Sprintf("catalogue %s: %q", c.name, truncBytes(data, 2000)))
 		o := c03Drive(r, c.kind, data, "catalogue: "+c.name)
 		r.Count("catalogue_lines_checked", 1)
+		if !o.violated && c03TwoErrors[c.name] && o.nonEOF == 1 {
+			r.Violate("invalid-line-accepted", fmt.Sprintf("%s reader reported only the first of two bad records: %s (%q), calls %s", c.kind, c.name, bad, o.seq),
+				map[string]interface{}{"reader": c.kind, "catalogue_entry": c.name, "bad_line": bad, "input": string(data), "calls": o.seq})
+		}
 		if !o.violated && o.nonEOF == 0 {
 			r.Violate("invalid-line-accepted", fmt.Sprintf("%s reader reported no error for: %s (%q)", c.kind, c.name, bad),
 				map[string]interface{}{"reader": c.kind, "catalogue_entry": c.name, "bad_line": bad, "input": string(data), "calls": o.seq})
